@@ -11,7 +11,7 @@ SCTP_STATE_MEASURE = ("distinct values of (association state, bucketed sent/outb
                       "fast recovery, gaps present, FORWARD-TSN/RECONFIG pending) for both ends, sampled after every handle")
 SCTP_ASSUME = [
     "the DTLS layer below SCTP delivers or loses whole datagrams and handles one datagram to completion before the next (as RTCDtlsTransport.__run does)",
-    "transport send does not suspend (aioice UDP path)",
+    "transport send does not suspend (aioice UDP path) except in the TURN-like configuration (about an eighth of the runs), where every n-th send of a node suspends",
     "sampling, not enumeration: a clean batch is evidence, not proof",
 ]
 
@@ -109,7 +109,7 @@ MEDIA_COMPONENTS = {
 MEDIA_ASSUME = [
     "DTLS handshake datagrams are delayed but never lost (OpenSSL's retransmission timer reads the real clock)",
     "the first 6 RTP packets are delivered unfaulted so that SRTP's rollover counter locks on (as it has in any stream that reaches the wrap)",
-    "transport send does not suspend (aioice UDP path)",
+    "transport send does not suspend (aioice UDP path) except in the TURN-like configuration (about an eighth of the runs), where every n-th send of a node suspends",
     "sampling, not enumeration: a clean batch is evidence, not proof",
 ]
 RULE_MEDIA = ("each evaluation is one simulated session: a packet track of 10-120 frames (1..8 packets, VP8 or H.264, RTX negotiated or "
